@@ -424,6 +424,11 @@ def _havoc_and_assume(ex: Exec, c, fi, env, call_heap, known, raising: str | Non
         na = ex.fresh("alloc", S.INT)
         ex.assume(na >= ex.alloc)
         ex.alloc = na
+        ex.epochs.append(na)
+    if mods:
+        for k, (mid, mname) in enumerate(mods):
+            for m in list(ex.heap):
+                ex.map_bound[f"hv{evno}_{k}_{m.replace(':', '_')}"] = ex.alloc
         # objects created by the callee: unconstrained maps above fresh_base are
         # expressed by not knowing anything about them (heap maps were arbitrary there)
     if raising is not None:
@@ -447,4 +452,6 @@ def _havoc_and_assume(ex: Exec, c, fi, env, call_heap, known, raising: str | Non
         for _, b in ex.eval_clause(c.clauses["ensures"], env2, call_heap):
             ex.assume(b)
         ex.fresh_base = saved_fb
+    ex.call_results[fi.qualname.split(":")[1]] = res
+    ex.call_snaps[fi.qualname.split(":")[1]] = ex.snapshot()
     return res
